@@ -79,6 +79,9 @@ def run(ck: vlib.Check):
         p = fdir / f"f{i}.raw"
         write_file(p, w)
         files.append((f, w, str(p)))
+    # a well-formed file without any data block (e.g. a run that was stopped at once): every clause applies to it as well
+    fzero = G.gen_file(rng, nblocks=0); wzero = G.enc_file(fzero); pzero = fdir / "zero_blocks.raw"; write_file(pzero, wzero)
+    files.append((fzero, wzero, str(pzero))); nfiles += 1
     # one file with many blocks: reads split into more batches than any bounded pending-queue / cache inside arrays() may hold
     fmany = G.gen_file(rng, nblocks=150 if quick else 400, small=True)
     wmany = G.enc_file(fmany); pmany = fdir / "many.raw"; write_file(pmany, wmany)
@@ -172,6 +175,50 @@ def run(ck: vlib.Check):
     for k in range(2 if quick else 8):
         group = rng.sample(range(nfiles), rng.choice([2, 3]))
         add("concat", None, rng.choice([63, 63, rng.randrange(1, 64)]), -1, rng.choice([1, 2, 10000]), rng.choice([1, None]), concat=group)
+    zi = nfiles - 1
+    for mask in (16, 48, 3, 21):
+        add("select", zi, mask, -1, rng.choice([1, 1000]), None)
+        add("concat", None, mask, -1, rng.choice([1, 10000]), None, concat=[zi, 0])
+        add("concat", None, mask, -1, 2, None, concat=[1, zi, 2])
+    # extra: (a) one path whose file is replaced between reads; (b) a path spelled through a symlinked directory and "..": the file the
+    # operating system resolves the name to is the one that must be read
+    extra, extra_want = [], []
+    prw = fdir / "rewritten.raw"
+    for order in ([1, 0, 2], [0, 1], [2, zi, 1]):
+        extra.append({"id": len(extra), "paths": [str(prw)], "rewrite": [files[k][1] for k in order], "n_blocks": -1, "pb": rng.choice([None, 1, 2]), "subs": None,
+                      "max_workers": None, "delay_seed": None, "guard": False, "native_so": None, "concat": len(extra) == 1})
+        extra_want.append(("rewritten-path", [[e for b in files[k][0]["blocks"] for e in b["events"]] for k in order], order))
+    try:
+        import os as _os, shutil as _sh
+        _sh.rmtree(fdir / "store", ignore_errors=True); (fdir / "store" / "day1").mkdir(parents=True)
+        if (fdir / "today").is_symlink(): (fdir / "today").unlink()
+        _os.symlink(_os.path.join("store", "day1"), fdir / "today")
+        write_file(fdir / "store" / "x.raw", files[0][1]); write_file(fdir / "x.raw", files[1][1])      # today/../x.raw IS store/x.raw
+        spelled = str(fdir / "today" / ".." / "x.raw")
+        for paths, want_k in (([spelled], [0]), ([spelled, str(fdir / "x.raw")], [0, 1])):
+            extra.append({"id": len(extra), "paths": paths, "concat": True, "n_blocks": -1, "pb": None, "subs": None, "max_workers": None, "delay_seed": None,
+                          "guard": False, "native_so": None})
+            extra_want.append(("path-through-symlinked-directory", [[e for k in want_k for b in files[k][0]["blocks"] for e in b["events"]]], want_k))
+    except OSError as e:
+        ck.notes.append(f"symlinked-directory spelling not exercised: {e}")
+    ejp = ck.bdir / "jobs_extra.json"
+    ejp.write_text(json.dumps({"calls": extra, "guard_s": 20}))
+    rc_e, so_e, se_e = vlib.run_impl_script("c03_impl.py", [ejp], timeout=600)
+    if rc_e != 0:
+        ck.tie_broken("correspondence", "implementation run (rewritten / re-spelled paths)", (se_e or so_e)[-800:])
+    else:
+        for c, (kind, wants, info), r in zip(extra, extra_want, json.loads(so_e)["results"]):
+            ck.case([kind, info, c["pb"]])
+            got = [{k: v[k] for k in ("hdr", "dets")} for v in (r.get("values") or [])]
+            want = [G.py_columnar(G.mask_dets(15), evs) for evs in wants]
+            if r["outcome"] != "ok" or got != want:
+                k = next((i for i, (a, b) in enumerate(zip(got, want)) if a != b), len(got))
+                what = (f"one path, its file replaced between reads by {len(wants)} well-formed files in turn (new reader each time, one interpreter): read {k} does not "
+                        f"return the events of the file then at that path" if kind == "rewritten-path" else
+                        f"concatenate_raw({[p.replace(str(fdir), '<dir>') for p in c['paths']]}) with <dir>/today -> store/day1: the name denotes <dir>/store/x.raw "
+                        f"(that is what open() reads); the events returned are not that file's")
+                ck.violation(f"C04:{kind}:{r['outcome']}", what + f" ({r['outcome']} {r.get('exc', '')})",
+                             {"mode": kind, "order": info, "files": [files[k][1] for k in info]})
     jp = ck.bdir / "jobs.json"
     jp.write_text(json.dumps({"calls": calls, "guard_s": 12 if quick else 20}))
     rc, so, se = vlib.run_impl_script("c03_impl.py", [jp], timeout=3000)
@@ -411,6 +458,28 @@ def replay(path):
             def violation(self, key, what, rp): print("still fails on the current working tree:", key, what[:400])
         _Ck.bdir.mkdir(exist_ok=True)
         return glob_part(_Ck(), [(None, w, None) for w in rp["files"]])
+    if rp.get("mode") in ("rewritten-path", "path-through-symlinked-directory"):
+        import os, shutil
+        d = vlib.BUILD / "C04_replay"; shutil.rmtree(d, ignore_errors=True); (d / "store" / "day1").mkdir(parents=True)
+        base = {"n_blocks": -1, "pb": None, "subs": None, "max_workers": None, "delay_seed": None, "guard": False, "native_so": None}
+        calls = []
+        for k, w in enumerate(rp["files"]):          # reference: every content at a path of its own
+            write_file(d / f"own{k}.raw", w); calls.append(dict(base, id=k, paths=[str(d / f"own{k}.raw")]))
+        if rp["mode"] == "rewritten-path":
+            calls.append(dict(base, id=len(calls), paths=[str(d / "rewritten.raw")], rewrite=rp["files"]))
+        else:
+            os.symlink(os.path.join("store", "day1"), d / "today"); write_file(d / "store" / "x.raw", rp["files"][0])
+            write_file(d / "x.raw", rp["files"][-1] if len(rp["files"]) > 1 else rp["files"][0][:0] or rp["files"][0])
+            calls.append(dict(base, id=len(calls), paths=[str(d / "today" / ".." / "x.raw")], concat=True))
+        jp = d / "jobs.json"; jp.write_text(json.dumps({"calls": calls, "guard_s": 20}))
+        rc, so, se = vlib.run_impl_script("c03_impl.py", [jp], timeout=300)
+        res = json.loads(so)["results"]
+        own = [r["values"][0] for r in res[:len(rp["files"])]]
+        got = res[-1].get("values") or []
+        want = own if rp["mode"] == "rewritten-path" else own[:1]
+        ok = res[-1]["outcome"] == "ok" and [{k: v[k] for k in ("hdr", "dets")} for v in got] == [{k: v[k] for k in ("hdr", "dets")} for v in want]
+        print("outcome on the current working tree:", "same events as the files read at paths of their own" if ok else f"DIFFERS ({res[-1]['outcome']} {res[-1].get('exc', '')})")
+        return 0 if ok else 1
     d = vlib.BUILD / "C04_replay"
     d.mkdir(exist_ok=True)
     p = d / "replay.raw"
